@@ -87,14 +87,20 @@ func TestVerifServerSchedules(t *testing.T) {
 			n = 48 + rng.intn(17)
 		}
 		p := 1 + rng.intn(8)
+		szs := sizes
+		if si%8 == 5 {
+			// a burst larger than any internal batch size, all waiting before the agent's first poll
+			n = 101 + rng.intn(160)
+			szs = []int{0, 1, 2, 1023, 1024}
+		}
 		sub := &verifRng{s: rng.next()}
 		wg.Add(1)
 		sem <- struct{}{}
-		go func(si, n, p int, sub *verifRng) {
+		go func(si, n, p int, sub *verifRng, szs []int) {
 			defer wg.Done()
 			defer func() { <-sem }()
-			verifRunSchedule(out, si, n, p, sub, sizes)
-		}(si, n, p, sub)
+			verifRunSchedule(out, si, n, p, sub, szs)
+		}(si, n, p, sub, szs)
 	}
 	wg.Wait()
 }
@@ -150,12 +156,20 @@ func verifRunSchedule(out *verifOut, si, n, npollers int, rng *verifRng, sizes [
 	}
 
 	// ---- scripted agent
+	pollersGo := make(chan struct{})
 	ids := make(chan string, 4*n+16)
 	var pollWG, workWG sync.WaitGroup
 	for k := 0; k < npollers; k++ {
 		pollWG.Add(1)
 		go func(k int) {
 			defer pollWG.Done()
+			if n > 100 {
+				// let the whole burst queue up first
+				select {
+				case <-pollersGo:
+				case <-ctx.Done():
+				}
+			}
 			for ctx.Err() == nil {
 				req, _ := http.NewRequestWithContext(ctx, "GET", srv.URL+"/agent/pending", nil)
 				req.Header.Set("X-Inverting-Proxy-Backend-ID", "verif")
@@ -310,7 +324,11 @@ func verifRunSchedule(out *verifOut, si, n, npollers int, rng *verifRng, sizes [
 			tr := &http.Transport{}
 			defer tr.CloseIdleConnections()
 			cl := &http.Client{Transport: tr}
-			cctx, cc := context.WithTimeout(ctx, 40*time.Second)
+			cto := 40 * time.Second
+			if n > 100 {
+				cto = 12 * time.Second
+			}
+			cctx, cc := context.WithTimeout(ctx, cto)
 			defer cc()
 			if pl.cancelAt > 0 {
 				cctx, cc = context.WithTimeout(ctx, pl.cancelAt)
@@ -338,6 +356,10 @@ func verifRunSchedule(out *verifOut, si, n, npollers int, rng *verifRng, sizes [
 		}(c)
 	}
 	close(barrier)
+	if n > 100 {
+		time.Sleep(500 * time.Millisecond)
+	}
+	close(pollersGo)
 	cwg.Wait()
 	// let outstanding posts finish, then stop the agent
 	doneW := make(chan struct{})
